@@ -26,6 +26,10 @@ def gen(i, R, tier):
         if any(q == p or q.startswith(p + "/") or p.startswith(q + "/") for q in placed):
             continue
         placed[p] = G.pick_content(rng, lang, 0.05, 0.4)
+    if rng.random() < 0.15:
+        d = rng.choice(("", "a/", "src/ab/"))
+        placed[d + "caf\udce9.py"] = G.pick_content(rng, "py", 0.0, 0.4)
+        placed[d + "caf\udce8.py"] = G.pick_content(rng, "py", 0.0, 0.4)
     ops = [{"op": "write", "path": p, "content": c} for p, c in placed.items()]
     ops.append({"op": "scan", "nonce": G.nonce(rng)})
     paths = sorted(placed)
